@@ -938,7 +938,7 @@ def readspec(platein, mjd=None, fiber=None, **kwargs):
         if 'path' in kwargs:
             sppath = [kwargs['path']]
         else:
-            sppath = spec_path(thisplate, run2d=run2d)
+            sppath = spec_path(thisplate, topdir=kwargs.get('topdir'), run2d=run2d)
         spfile = os.path.join(sppath[0], "spPlate-{0}.fits".format(pmjdstr))
         log.info(spfile)
         spplate = fits.open(spfile)
